@@ -59,6 +59,8 @@ HIST_STMTS = [
     "__all__ = ['B', 'C', 'x', 'g']",
     "__all__ = ['f', 'nothere']",
     "__all__ = ['m1']",
+    'from p import sp', 'from . import sp', "__all__ = ['sp']", "__all__ = ['sp', 'm1', 'A']", 'from p.sp import inner', 'from .sp import inner as m2', "__all__ = ['inner', 'A']", 'from p.sp.inner import A', 'from .sp.inner import *',
+    'import p.sp.inner', 'class E(p.sp.inner.A):\n    pass',
     'from zope.interface import Interface, implementer, classImplements',
     'class I(Interface):\n    """iface"""\n    def im(): pass',
     '@implementer(I)\nclass A:\n    def im(self): pass',
@@ -93,6 +95,10 @@ def st_project():
         if draw(st.integers(0, 14)) == 0:
             # a root module named like one of the pages pydoctor writes itself
             mods.append((draw(st.sampled_from(['index', 'classIndex', 'moduleIndex', 'nameIndex', 'undoccedSummary'])), None, False, draw(st_module())))
+        if draw(st.integers(0, 2)) == 0:
+            # a sub-package with a module of its own (re-exporting it from a plain module must not move it there)
+            mods.append(('sp', 'p', True, draw(st.one_of(st.just(''), st_module()))))
+            mods.append(('inner', 'p.sp', False, draw(st_module())))
         if draw(st.integers(0, 3)) == 0:
             mods.append(('q', None, True, draw(st_module()).replace('p.', 'q.')))
             mods.append(('m1', 'q', False, draw(st_module())))
@@ -103,9 +109,14 @@ def st_project():
             for i, m in enumerate(mods):
                 groups.setdefault(m[1], []).append(i)
             order = []
+
+            def place(i: int) -> None:
+                order.append(i)
+                full = (mods[i][1] + '.' if mods[i][1] else '') + mods[i][0]
+                for c in draw(st.permutations(groups.get(full, []))):
+                    place(c)
             for r in draw(st.permutations(groups.get(None, []))):
-                order.append(r)
-                order.extend(draw(st.permutations(groups.get(mods[r][0], []))))
+                place(r)
         return {'kind': 'project', 'mods': [list(m) for m in mods], 'order': order}
     return p()
 
